@@ -1,5 +1,5 @@
 /* shared by the C07 editor obligations: an arbitrary WF aggregator, a snapshot of its view, whole-view comparison */
-#define ND_AGG(u) struct url_aggregator u; __CPROVER_assume(agg_wf(&u))
+#define ND_AGG(u) struct url_aggregator u; u.base.is_valid = 1; u.base.has_opaque_path = nondet_bool(); __CPROVER_assume(agg_wf(&u))
 #define IN_CLASS(v, c1, c2, c3, c4, c5) wf_no_byte((v).p, 0, (v).n, c1, c2, c3, c4, c5)
 /* every component of the new view equals the old one, except those named in `skip` (bit mask) */
 enum { F_SCHEME = 1, F_AUTH = 2, F_USER = 4, F_PASS = 8, F_HOST = 16, F_PORT = 32, F_DASH = 64, F_PATH = 128, F_SEARCH = 256, F_HASH = 512 };
@@ -15,11 +15,15 @@ static inline void assert_view_unchanged(const agg_view_t *a, const agg_view_t *
   if (!(skip & F_SEARCH)) __CPROVER_assert(a->has_search == b->has_search && view_sv_eq(a->search, b->search), "postcondition: query unchanged");
   if (!(skip & F_HASH)) __CPROVER_assert(a->has_hash == b->has_hash && view_sv_eq(a->hash, b->hash), "postcondition: fragment unchanged");
 }
+#ifndef PENDING_OK
+#define PENDING_OK 0   /* only the parser-phase editors accept the 'credentials without @ yet' state */
+#endif
 #define EDITOR_PROLOGUE \
-  HAVOC_BUFS; ND_AGG(u); struct url_aggregator old = u; agg_view_t v0; (void)agg_wf_view(&old, &v0);
+  HAVOC_BUFS; ND_AGG(u); struct url_aggregator old = u; agg_view_t v0; (void)agg_wf_view(&old, &v0); \
+  __CPROVER_assume(PENDING_OK || !v0.pending_at);
 #define EDITOR_EPILOGUE(skip) \
   agg_view_t v1; _Bool wf1 = agg_wf_view(&u, &v1); \
   __CPROVER_assert(wf1, "postcondition: WF re-established (offsets partition the href, delimiters in place)"); \
   __CPROVER_assert(agg_validate(&u), "postcondition: the library's own validate() accepts the result"); \
-  __CPROVER_assert(u.base.type == old.base.type && u.base.has_opaque_path == old.base.has_opaque_path && u.base.host_type == old.base.host_type, "postcondition: record flags untouched"); \
+  __CPROVER_assert((((skip) & F_SCHEME) || u.base.type == old.base.type) && u.base.has_opaque_path == old.base.has_opaque_path && u.base.host_type == old.base.host_type, "postcondition: record flags untouched"); \
   if (wf1) assert_view_unchanged(&v0, &v1, (skip));
